@@ -84,6 +84,27 @@ SCRIPT = textwrap.dedent(
         if edge == "arg" and cycle_len == 1: continue
         one(cycle_len, edge, prefix, reg_kind, workers, sched, dry); n += 1
         if len(problems) >= 5: break
+    # controls: the same shapes WITHOUT the back edge must run to completion (the check must not reject acyclic plans)
+    def acyclic(chain, workers, sched, reg_kind):
+        events.clear()
+        plan = Plan()
+        def mk(name):
+            def f(*a): events.append(("start", name)); return name
+            f.__name__ = name; return f
+        nodes = []
+        for i in range(chain):
+            nodes.append(plan.call(mk(f"n{i}"), *(nodes[-1:])))
+            if i >= 2: plan.add_dependency(nodes[i - 2], nodes[i])
+        kw = dict(output=nodes[-1], max_workers=workers, scheduler=sched, progress=None)
+        if reg_kind == "empty": kw["registry"] = Registry()
+        elif reg_kind == "stored":
+            r = Registry(); r.add(nodes[0], Store("s0")); kw["registry"] = r
+        try: v = uberjob.run(plan, **kw)
+        except BaseException as e: problems.append(f"acyclic chain of {chain} (registry={reg_kind}, workers={workers}, {sched}) was rejected: {e!r}"); return
+        want = 1 if reg_kind == "stored" else None
+        if [e for e in events if e[0] == "start"] != [("start", f"n{i}") for i in range(chain)]: problems.append(f"acyclic chain of {chain}: executed {events}")
+    for chain, workers, sched, reg_kind in itertools.product((1, 2, 4), (1, 3), ("default", "random"), ("none", "empty", "stored")):
+        acyclic(chain, workers, sched, reg_kind); n += 1
     for p in problems[:5]: print("VIOLATED C07", p)
     print(f"{n} cyclic runs, {len(problems)} problem(s)"); sys.stdout.flush(); os._exit(1 if problems else 0)
     '''
@@ -104,7 +125,7 @@ def _cycles(ctx):
     return "ok"
 
 
-unit("cycles.run-rejects-cycles[bounded]", props=["C07"], functions=[("_run.py", "run")], assumptions=["bounded stand-in: cycles <= 3 nodes, see contracts/cycles.py"],
+unit("cycles.run-rejects-cycles[bounded]", props=["C07"], functions=[("_run.py", "run"), ("_util/networkx_util.py", "topological_sort"), ("_util/networkx_util.py", "assert_acyclic")], assumptions=["bounded stand-in: cycles <= 3 nodes, see contracts/cycles.py"],
      min_obligations=2, kind="bounded")(_cycles)
 
 REPLAYS = [("cycles.*", replay), ("runpath.run/C07*", replay)]
